@@ -1031,7 +1031,7 @@ impl<'p> World<'p> {
         if let Some(cost) = if wk == WrapKind::Pw { pw_cost(text) } else { None } {
             // costs too high to recompute are skipped - except memory sizes no Argon2 implementation can
             // be asked for at all (more than 2^32-1 KiB): the reference refuses those at once
-            if (cost.mem > 1100 * 1024 * 1024 && !cost.beyond_argon2()) || cost.time > 12 || cost.iter > 5_000_000 {
+            if (cost.mem > 4300 * 1024 * 1024 && !cost.beyond_argon2()) || cost.time > 12 || cost.iter > 5_000_000 {
                 return;
             }
             // a blob written with parameters outside the KDF's domain has no specified value
@@ -1817,6 +1817,8 @@ pub fn canonical_key_bytes(family: u8, kind: Kind, input: &[u8]) -> Option<Vec<u
             _ => None,
         },
         (_, Kind::Local) if input.len() == 32 => Some(input.to_vec()),
+        // k2/k4 public keys are 32 opaque bytes in the format: whatever is accepted is kept as given
+        (2 | 4, Kind::Public | Kind::PkePublic) if input.len() == 32 => Some(input.to_vec()),
         (3, Kind::Secret | Kind::PkeSecret) if crate::curves::p384_scalar_valid(input) => Some(input.to_vec()),
         _ => None,
     }
